@@ -4,7 +4,16 @@ from props_common import TRUSTED_COMMON
 PROP = {
     "lean_targets": ["MultiProofs.C17"],
     "lean_module": "MultiProofs.C17",
-    "theorems": [],
+    "theorems": [
+        "Multi.C17.save_tokens",
+        "Multi.C17.roundtrip",
+        "Multi.C17.codec_lawful",
+        "Multi.C17.view_saves_canonical",
+        "Multi.C17.view_load_exact",
+        "Multi.C17.view_roundtrip",
+        "Multi.elements_walk",
+        "Multi.serialAddrs_canonical",
+    ],
     "harnesses": [{"name": "serial", "src": "serial.cpp", "flags": ["-O1", "-DNDEBUG"], "libs": ["-lboost_serialization"], "modes": ["zero", "rebased"],
                    "driver": "mmdrv_sermpi", "programs": {"quick": 16000, "thorough": 640000}}],
     "trusted_base": TRUSTED_COMMON + [
